@@ -23,7 +23,7 @@ CHECKS = {
     "C05": {
         "groups": [
             {"pkg": "Havoc/pkg/agent", "with": AGENT_WITH, "entries": ["H_c05_gate"], "shards": 16},
-            {"pkg": "Havoc/pkg/agent", "with": AGENT_WITH, "entries": ["H_c05_completed", "H_c05_final", "H_c05_cross"]},
+            {"pkg": "Havoc/pkg/agent", "with": AGENT_WITH, "entries": ["H_c05_completed", "H_c05_final", "H_c05_cross", "H_c05_download_close"]},
             {"pkg": "Havoc/pkg/handlers", "with": ["Havoc/pkg/agent"] + AGENT_WITH, "entries": ["H_c05_handout"]},
         ],
         "bounds": "gate: every command id + one arbitrary other id, body 0..8 bytes, 0..2 outstanding ids on the receiver, the callback id outstanding on another agent; RequestCompleted: 0..4 outstanding ids (duplicates allowed); final: 11 single-package commands, body 0..12 bytes.; hand-out lifecycle through the listener (parseAgentRequest): one task with an arbitrary request id issued or not, 0..2 check-ins asking for jobs, its final callback, a replay of the same id with arbitrary values",
